@@ -2,6 +2,8 @@ package main
 
 import (
 	"encoding/json"
+	"go/ast"
+	"go/types"
 	"flag"
 	"fmt"
 	"os"
@@ -29,6 +31,35 @@ type KnownFile struct {
 type Baseline struct {
 	// property -> families that discharge on the delivered tree
 	Families map[string][]string `json:"families"`
+	// function -> local declarations in source order on the delivered tree (lets contracts survive renamed locals)
+	Locals map[string][]LocalDecl `json:"locals,omitempty"`
+}
+
+type LocalDecl struct {
+	Name string `json:"n"`
+	Type string `json:"t"`
+}
+
+// localDecls lists the variables a function declares (parameters, results, locals, closure parameters) in source order.
+func localDecls(info *types.Info, fd *ast.FuncDecl) []LocalDecl {
+	var out []LocalDecl
+	ast.Inspect(fd, func(n ast.Node) bool {
+		if id, ok := n.(*ast.Ident); ok {
+			if v, ok := info.Defs[id].(*types.Var); ok && !v.IsField() {
+				out = append(out, LocalDecl{Name: v.Name(), Type: types.TypeString(v.Type(), nil)})
+			}
+		}
+		return true
+	})
+	return out
+}
+
+var baseLocals map[string][]LocalDecl
+
+func loadBaseLocals() {
+	var base Baseline
+	loadJSON(filepath.Join(verifDir, "baseline", "families.json"), &base)
+	baseLocals = base.Locals
 }
 
 func loadJSON(path string, v any) error {
@@ -177,6 +208,14 @@ func report(w *World, res *checkResult, tier string, seed int, cfg SolverCfg, t0
 		}
 		sort.Strings(fams)
 		base.Families[prop] = fams
+		if base.Locals == nil {
+			base.Locals = map[string][]LocalDecl{}
+		}
+		for _, r := range res.funcs {
+			if len(r.Locals) > 0 {
+				base.Locals[r.Func] = r.Locals
+			}
+		}
 		os.MkdirAll(filepath.Join(verifDir, "baseline"), 0o755)
 		data, _ := json.MarshalIndent(base, "", " ")
 		os.WriteFile(filepath.Join(verifDir, "baseline", "families.json"), data, 0o644)
